@@ -1618,9 +1618,10 @@ class ImportanceNestedSampler(BaseNestedSampler):
         )
 
         # TODO: check this is correct
-        log_p = log_w[indices] - log_w[indices].max()
-        h = differential_entropy(log_p)
-        logger.debug(f"Information in the posterior: {h:.3f} nats")
+        if posterior_samples.size:
+            log_p = log_w[indices] - log_w[indices].max()
+            h = differential_entropy(log_p)
+            logger.debug(f"Information in the posterior: {h:.3f} nats")
 
         logger.info(f"Produced {posterior_samples.size} posterior samples.")
         return posterior_samples
